@@ -136,6 +136,10 @@ structure State where
   now     : Nat := 0
   log     : List Ev := []
   fault   : Option Fault := none
+  /-- ghost: capacity tokens in existence beyond `maxSize` (a shrink could not
+  collect them yet). Never read by the transition function except to update
+  it; not observable. -/
+  debt    : Nat := 0
 deriving Repr, DecidableEq, Inhabited
 
 /-- `Pool::builder(m).config(cfg)…build()` -/
@@ -283,7 +287,6 @@ def stepGet (s : State) (i : Nat) (t : Timeouts) (pc : GPc) (oc : Outcome) : Opt
         some ((s.setOp i (.get t (.creating false))).emit [.createCall i])
   -- 391-418: the recycle sequence
   | .recycling k o susp, oc =>
-    let isRecycle := k == s.cfg.pre.length
     match oc with
     | .ok =>
       if k + 1 < s.cfg.nRecycle then some (arriveRecycle s i t (k + 1) o)
@@ -291,12 +294,12 @@ def stepGet (s : State) (i : Nat) (t : Timeouts) (pc : GPc) (oc : Outcome) : Opt
     | .err => some (s.setOp i (.get t (.unreadyLock o .retry)))
     | .pending =>
       if !s.cfg.recycleAsync k then none
-      else if isRecycle && t.recycle == .zero then
+      else if k == s.cfg.pre.length && t.recycle == .zero then
         -- zero timeout with a runtime: one poll, then `Elapsed`
         some (s.setOp i (.get t (.unreadyLock o .retry)))
       else some (s.setOp i (.get t (.recycling k o true)))
     | .deadline =>
-      if susp && isRecycle && t.recycle == .finite then
+      if susp && k == s.cfg.pre.length && t.recycle == .finite then
         some (s.setOp i (.get t (.unreadyLock o .retry)))
       else none
     | .panic => some (s.setOp i (.get t (.unreadyLock o (.fail .panicked))))
@@ -364,7 +367,9 @@ def stepRet (s : State) (i : Nat) (pc : RPc) (o : Obj) : Option State :=
     if s.size ≤ s.maxSize then
       some (({ s with idle := s.idle ++ [o] }.setOp i (.ret .addPermits o)).emit [.returned i o.id])
     else
-      some ({ s with size := s.size - 1, fault := decFault s.fault s.size 1 }.setOp i (.ret .detach o))
+      -- surplus after a shrink: the object is discarded and its token with it
+      some ({ s with size := s.size - 1, fault := decFault s.fault s.size 1,
+                     debt := s.debt - 1 }.setOp i (.ret .detach o))
   | .addPermits => some ({ s with sem := s.sem.addPermits 1 }.setOp i .done)
   | .detach => some ((s.setOp i .done).emit [.detach i o.id, .destroy o.id])
 
@@ -378,7 +383,8 @@ def stepTake (s : State) (i : Nat) (pc : TPc) (o : Obj) (add : Bool) : Option St
   | .lock =>
     if !s.lockFree i then none else
     let add := decide (s.size ≤ s.maxSize)
-    some ({ s with size := s.size - 1, fault := decFault s.fault s.size 1 }.setOp i
+    some ({ s with size := s.size - 1, fault := decFault s.fault s.size 1,
+                   debt := if add then s.debt else s.debt - 1 }.setOp i
       (.take (if add then .addPermits else .detach) o add))
   | .addPermits => some ({ s with sem := s.sem.addPermits 1 }.setOp i (.take .detach o add))
   | .detach => some ((s.setOp i .done).emit [.detach i o.id, .taken i o.id])
@@ -405,7 +411,7 @@ def stepResize (s : State) (i : Nat) (n : Nat) (isClose : Bool) (pc : ZPc) (old 
     | some _ => none
     | none =>
       let old := s.maxSize
-      let s := { s with maxSize := n, lock := some i }
+      let s := { s with maxSize := n, lock := some i, debt := s.debt + (old - n) }
       if n < old then some (s.setOp i (.resize n isClose .shrink old))
       else if n > old then some (s.setOp i (.resize n isClose .grow old))
       else some (finishResize s i n isClose old)
@@ -416,9 +422,9 @@ def stepResize (s : State) (i : Nat) (n : Nat) (isClose : Bool) (pc : ZPc) (old 
         -- permit forgotten; one idle object (if any) released and detached
         match s.idle with
         | o :: rest =>
-          some ({ s with sem := sem, idle := rest, size := s.size - 1,
+          some ({ s with sem := sem, idle := rest, size := s.size - 1, debt := s.debt - 1,
                          fault := decFault s.fault s.size 1 }.emit [.detach i o.id, .destroy o.id])
-        | [] => some { s with sem := sem }
+        | [] => some { s with sem := sem, debt := s.debt - 1 }
       | (_, _) => some (finishResize s i n isClose old)
     else some (finishResize s i n isClose old)
   | .grow =>
@@ -428,23 +434,33 @@ def stepResize (s : State) (i : Nat) (n : Nat) (isClose : Bool) (pc : ZPc) (old 
 
 /-! ### `retain` -/
 
-/-- the `while` loop of `retain`: `k` = predicate call index -/
-def retainLoop (i : Nat) (keep : List Bool) : Nat → List Obj → List Obj × List Obj × List Ev
-  | _, [] => ([], [], [])
+/-- the `while` loop of `retain` (`k` = predicate call index): objects kept -/
+def retainKept (keep : List Bool) : Nat → List Obj → List Obj
+  | _, [] => []
   | k, o :: rest =>
-    let b := keep.getD k true
-    let (kept, removed, evs) := retainLoop i keep (k + 1) rest
-    if b then (o :: kept, removed, .pred i k o true :: evs)
-    else (kept, o :: removed, .pred i k o false :: .detach i o.id :: evs)
+    if keep.getD k true then o :: retainKept keep (k + 1) rest else retainKept keep (k + 1) rest
+
+/-- objects removed (handed to the caller) -/
+def retainRemoved (keep : List Bool) : Nat → List Obj → List Obj
+  | _, [] => []
+  | k, o :: rest =>
+    if keep.getD k true then retainRemoved keep (k + 1) rest
+    else o :: retainRemoved keep (k + 1) rest
+
+/-- predicate calls and `detach` calls, in order -/
+def retainEvs (i : Nat) (keep : List Bool) : Nat → List Obj → List Ev
+  | _, [] => []
+  | k, o :: rest =>
+    if keep.getD k true then .pred i k o true :: retainEvs i keep (k + 1) rest
+    else .pred i k o false :: .detach i o.id :: retainEvs i keep (k + 1) rest
 
 def stepRetain (s : State) (i : Nat) (keep : List Bool) : Option State :=
   if !s.lockFree i then none else
-  let r := retainLoop i keep 0 s.idle
-  let kept : List Obj := r.1
-  let removed : List Obj := r.2.1
+  let kept := retainKept keep 0 s.idle
+  let removed := retainRemoved keep 0 s.idle
   some (({ s with idle := kept, size := s.size - removed.length,
                   fault := decFault s.fault s.size removed.length }.setOp i .done).emit
-    (r.2.2 ++ [Ev.retained i kept.length (removed.map Obj.id)]))
+    (retainEvs i keep 0 s.idle ++ [Ev.retained i kept.length (removed.map Obj.id)]))
 
 /-! ### `status` -/
 
@@ -499,10 +515,43 @@ def step (s : State) (a : Action) : Option State :=
 def run (s : State) (as : List Action) : State :=
   as.foldl (fun s a => (step s a).getD s) s
 
+theorem run_nil (s : State) : run s [] = s := rfl
+
+theorem run_cons (s : State) (a : Action) (as : List Action) :
+    run s (a :: as) = run ((step s a).getD s) as := rfl
+
+theorem run_append (s : State) (as bs : List Action) :
+    run s (as ++ bs) = run (run s as) bs := by
+  simp [run, List.foldl_append]
+
 /-- Run a list of actions; `none` if one of them is not enabled. -/
 def run? (s : State) : List Action → Option State
   | [] => some s
   | a :: as => (step s a).bind (run? · as)
+
+/-! ### derived views -/
+
+/-- the object an operation has in hand (alive, neither idle nor in a caller's hands) -/
+def Op.held : Op → Option Obj
+  | .get _ (.recycling _ o _) => some o
+  | .get _ (.createSize o) => some o
+  | .get _ (.postCreate _ o _) => some o
+  | .get _ (.unreadyLock o _) => some o
+  | .get _ (.unreadyDetach o _) => some o
+  | .ret .users o | .ret .lock o | .ret .detach o => some o
+  | .take _ o _ => some o
+  | _ => none
+
+/-- every object that exists and has not been handed over to a caller for good -/
+def State.live (s : State) : List Obj := s.idle ++ s.out ++ s.ops.filterMap Op.held
+
+def Spec.isResize : Spec → Bool
+  | .resize _ | .close => true
+  | _ => false
+
+def Action.isResize : Action → Bool
+  | .start sp => sp.isResize
+  | _ => false
 
 /-! ### labels (the `verif_point!` names in the source) -/
 
